@@ -35,7 +35,11 @@ void harness (void) {
   H_ASSUME (addr != NULL && call != NULL);
   h_ctx_word = &h_gen;
   h_gen.ctx = ctx;
-  h_item.item_type = MIR_func_item; h_item.u.func = &h_func; h_item.addr = addr; h_item.data = NULL;
+  /* item->data: NULL after generation; the interpreter attaches its func_desc there when the function is interpreted afterwards
+     (C16: a generated function "can afterwards be interpreted") - asking again for the code must still work */
+  static uint64_t h_interp_desc[4];
+  void *data = nd_bool () ? (void *) h_interp_desc : NULL;
+  h_item.item_type = MIR_func_item; h_item.u.func = &h_func; h_item.addr = addr; h_item.data = data;
   h_func.func_item = &h_item; h_func.name = "f"; h_func.machine_code = code; h_func.call_addr = call;
   h_insn.code = MIR_RET; h_insn.nops = 0;
   DLIST_INIT (MIR_insn_t, h_func.insns);
@@ -47,8 +51,9 @@ void harness (void) {
   r2 = MIR_gen (ctx, &h_item);
   H_ASSERT (r2 == r1, "repeated generation gives the same address");
   H_ASSERT (DLIST_HEAD (MIR_insn_t, h_func.insns) == &h_insn && DLIST_TAIL (MIR_insn_t, h_func.insns) == &h_insn
-              && DLIST_HEAD (MIR_insn_t, h_func.original_insns) == NULL && h_item.data == NULL,
-            "the MIR of the function is untouched (no working copy left, no generator data attached)");
+              && DLIST_HEAD (MIR_insn_t, h_func.original_insns) == NULL && h_item.data == data,
+            "the MIR of the function is untouched (no working copy left, item data as it was)");
+  if (data != NULL) H_WITNESS ("generated, interpreted, generated again");
   H_ASSERT (h_func.machine_code == code && h_func.call_addr == call && h_item.addr == addr, "recorded code addresses unchanged");
   H_WITNESS ("end");
 }
